@@ -55,6 +55,12 @@ type txSpec struct {
 	Chain       []txLink          `json:"chain,omitempty"` // interrupted runs before the final, healthy one
 	Damage      []txDamage        `json:"damage,omitempty"`
 	DamageAfter int               `json:"damage_after_run,omitempty"`
+	// sender knobs left at their defaults when zero
+	SmallThr  int64   `json:"small_threshold,omitempty"`
+	MediumThr int64   `json:"medium_threshold,omitempty"`
+	SmallFrac float64 `json:"small_slot_frac,omitempty"`
+	AgingMs   int     `json:"aging_after_ms,omitempty"`
+	Tail      uint32  `json:"resume_verify_tail,omitempty"`
 	EnumFault   bool              `json:"enumerate_fault_position,omitempty"`
 }
 
@@ -407,7 +413,8 @@ func runEpisode(cfg epCfg) (ep *epResult) {
 			globalReadPool = pool
 			verifsim.SetName("main")
 
-			sOpts := Options{ChunkSize: sp.Chunk, ParallelFiles: sp.Streams, Resume: sp.ResumeS, HashAlg: sp.Hash, ResolveFilePath: resolver, StripeMax: nconns}
+			sOpts := Options{ChunkSize: sp.Chunk, ParallelFiles: sp.Streams, Resume: sp.ResumeS, HashAlg: sp.Hash, ResolveFilePath: resolver, StripeMax: nconns,
+				SmallThreshold: sp.SmallThr, MediumThreshold: sp.MediumThr, SmallSlotFrac: sp.SmallFrac, AgingAfter: time.Duration(sp.AgingMs) * time.Millisecond, ResumeVerifyTail: sp.Tail}
 			rOpts := Options{Resume: sp.ResumeR, NoRootDir: sp.NoRoot, HashAlg: sp.Hash, ParallelFiles: sp.RecvStreams}
 			if sp.Delta {
 				var sink atomic.Int64
@@ -670,6 +677,14 @@ func genBase(r *verifsim.SplitMix, prop string, maxFiles int) txSpec {
 	if r.Chance(1, 3) {
 		sp.RecvStreams = 1 + r.Intn(8)
 	}
+	if r.Chance(1, 2) {
+		// size classes of the sender's file scheduler brought down to the generated sizes
+		sp.SmallThr = []int64{1, 64, 1000, 5000}[r.Intn(4)]
+		sp.MediumThr = sp.SmallThr * []int64{1, 4, 50}[r.Intn(3)]
+		sp.SmallFrac = []float64{0, 0.25, 0.5, 1}[r.Intn(4)]
+		sp.AgingMs = []int{0, 1, 1000}[r.Intn(3)]
+	}
+	sp.Tail = []uint32{0, 0, 1, 2}[r.Intn(4)]
 	genTree(r, &sp, maxFiles, false)
 	if sp.Chunk <= 7 {
 		for i := range sp.Files {
@@ -708,7 +723,14 @@ type txHarness struct{ prop string }
 
 func (h txHarness) Gen(r *verifsim.SplitMix, tier string, idx int) any {
 	sp := genBase(r, h.prop, 6)
-	if h.prop == "C17" && r.Chance(2, 5) && len(sp.Files) > 0 {
+	if r.Chance(1, 5) && len(sp.Files) > 0 {
+		// a healthy resumed run from a prior partial transfer (state written directly,
+		// every bitmap shape, nothing damaged)
+		sp.ResumeS, sp.ResumeR = true, true
+		for i := 0; i < 1+r.Intn(2); i++ {
+			sp.Damage = append(sp.Damage, txDamage{Kind: "synthetic", File: r.Intn(8), Arg: r.Intn(1 << 20)})
+		}
+	} else if h.prop == "C17" && r.Chance(2, 5) && len(sp.Files) > 0 {
 		// a resumed transfer whose verification fails: a prior state written directly
 		// (bitmap shapes) with the highest marked chunk torn, so that the sender has to
 		// re-send exactly that chunk
